@@ -46,7 +46,8 @@ CLAIMS = {
               "getter/setter use one field; MultiRelationLink picks the latest-ending member of the whole group and "
               "applies the same equations; the implicit predecessor is searched deepest-first with an any-channel match "
               "over the whole argument; add_to_graph appends exactly one node on every feasible path with graph parent == "
-              "relation reference; nesting and unrolling hand the block / group link to exactly the operations without "
+              "relation reference; the duration that enters the equations is the configured one (operation -> strategy -> registry "
+              "lookups by the operation's own key, incl. the temporary override); nesting and unrolling hand the block / group link to exactly the operations without "
               "relation. Each is a necessary condition: breaking it changes a reported time for some build program."),
         note=("Not decided: numeric agreement of reported times under memoisation (C03); JOINED_END handed to first children "
               "of a nested block uses the child's duration (unreachable through DeclarativeCircuit.add, DESIGN 5b). Trusted: "
@@ -155,6 +156,8 @@ CLAIMS = {
     "C14": dict(
         text=("Decides the noise dresser from its source for all circuits and settings: (N1) in the dresser walk, the measurement dresser, "
               "the block splitter and the Pauli pass every input instruction reaches an emit on every path (path enumeration of the loop "
+              "bodies, read through accumulator-loop / comprehension / flat-map normal forms; (N6) targets are every token after the gate name, "
+              "annotations have none, idle noise ranges over all targets of all instructions; "
               "bodies; [noise, *block, noise] wrapping; tail block yielded; one measurement per target on the same target); (N2/N3) inserted "
               "names and every string key that is later looked up with instruction.name are checked against a frozen table of Stim aliases "
               "-- an alias key (the historic 'MZ') can never match; (N4) the idle channel is compared in affine normal form with "
@@ -185,7 +188,10 @@ CLAIMS = {
               "conjunction 'edge contains q and group(q) higher than group(partner)'; get_requires_parking has the skeleton spectator (over ALL "
               "gates) and not participant and EXISTS involved neighbour (higher and moving), and get_requires_idle is its exact mirror (sibling "
               "comparison after swapping the two primitives); the grouping enumeration records only complete partitions and removes exactly the "
-              "chosen combination; a grouping is kept iff every step passed get_mutually_allowed on all its gates, which tests every ordered pair."),
+              "chosen combination; a grouping is kept iff every step passed get_mutually_allowed on all its gates, which tests every ordered pair; "
+              "(Q7) the constraint an operation puts on a qubit: a member qubit may do nothing else, a far qubit is free, a neighbour is forbidden "
+              "every intersecting gate plus idle-and-non-moving gates when it must park plus park-and-moving gates when it must idle; allowed = "
+              "possible (idle, park, every edge, of every qubit) minus the constraints of every qubit."),
         note=("NOT decided (out of reach for this family): the exhaustive statement 'accepted exactly when no qubit takes part in two gates and no two "
               "neighbours share an operating level' over all subsets of up to four of the 24 edges -- that is enumeration / model checking of "
               "get_forbidden_operations, not a shape-of-the-code fact. The rules above are necessary conditions of it. Trusted: itertools.combinations."),
@@ -239,7 +245,9 @@ CLAIMS = {
               "0 cycles emit one measurement per ancilla and no round; every record-offset argument of the detector / observable annotations "
               "(last index, main / secondary target, reference / secondary offset, per block and for the final detectors under all sign cases of "
               "the cycle thresholds) equals the pinned protocol normal form; blocks start with the right round builder (refocusing / plain) and "
-              "advance the time coordinate; the plain and refocusing round builders agree statement for statement on the gate part; the "
+              "advance the time coordinate; the plain and refocusing round builders agree on the gate part; what the round builders are told about "
+              "a layer (gate index pairs, parks, active ancillas; None exactly outside the layer range) is every edge / park / rotation ancilla of that "
+              "layer mapped through the index map; the "
               "initial-state -> gate table is exhaustive and correct, data / ancilla getters read their own container under a guard on that "
               "container, get_operations wires data keys to data getter and data ids, ancilla keys to ancilla getter and ancilla ids; derived "
               "descriptions and chains carry the refocusing option, which guards the echo block (Wait, Rx180, Wait per data qubit)."),
